@@ -86,6 +86,18 @@ def t_while_continue(a):
     return s
 
 
+def t_for_while(a):
+    s = 0
+    for i in range(3):
+        if i == a:
+            break
+        s += i + 1
+    while a > 0:
+        a -= 2
+        s += 10
+    return s * 100 + a
+
+
 def t_minmax(a, b, c):
     return max(a, b, c) * 100 + min(a, b) - max(0, c)
 
